@@ -327,9 +327,10 @@ def nameOf (t : String) : Option Name :=
   | _ => none
 
 /-- `cur` the nonce of this handshake, `stale` the one of an earlier handshake of the same honest
-node, `foreign` a string chosen by the peer -/
+node, `foreign` a string chosen by the peer, `zero` the all-zero string -/
 def nonceOf : String → Option Nonce
-  | "cur" => some (.hon 1) | "stale" => some (.hon 0) | "foreign" => some (.adv 0) | _ => none
+  | "cur" => some (.hon 1) | "stale" => some (.hon 0) | "foreign" => some (.adv 0)
+  | "zero" => some (.adv 1) | _ => none
 
 def sigOf (t : String) : Option (Option Sig) :=
   if t = "none" then some none
